@@ -20,6 +20,9 @@ SHAPES = {
     "tuple": ("pub struct Cfg { pub name: String }", "(u8, Cfg)", '(1u8, Cfg { name: "nm".to_string() })', "&deps.1.name"),
     "array": ("pub struct Cfg { pub name: String }", "[Cfg; 1]", '[Cfg { name: "nm".to_string() }]', "&deps[0].name"),
     "reference": ("", "&'static str", '"nm"', "deps"),
+    # a concrete type with a lifetime parameter: elided, and named by a lifetime parameter of the function
+    "ltelided": ("pub struct Ctx<'c> { pub name: &'c str }", "Ctx<'_>", 'Ctx { name: "nm" }', "deps.name", "", "Ctx<'static>"),
+    "ltparam": ("pub struct Ctx<'c> { pub name: &'c str }", "Ctx<'c>", 'Ctx { name: "nm" }', "deps.name", "'c", "Ctx<'static>"),
 }
 ARGS = {"i": ("i64", "{v}", "{v}"), "s": ("&str", '"s{v}"', "s{v}"), "g": ("T", "{v}i64", "{v}")}
 TGEN = "T: ::core::fmt::Display + ::core::marker::Send + ::core::marker::Sync"
@@ -45,18 +48,20 @@ def enumerate_states(tier):
 
 def render(s):
     key = s["key"]
-    pre, ty, ctor, name_expr = SHAPES[s["shape"]]
+    pre, ty, ctor, name_expr = SHAPES[s["shape"]][:4]
+    flt = SHAPES[s["shape"]][4] if len(SHAPES[s["shape"]]) > 4 else ""
+    sty = SHAPES[s["shape"]][5] if len(SHAPES[s["shape"]]) > 5 else ty
     params = ["a%d: %s" % (i, ARGS[k][0]) for i, k in enumerate(s["word"])]
     args = [ARGS[k][1].format(v=10 + i) for i, k in enumerate(s["word"])]
     shows = ["a%d" % i for i in range(len(s["word"]))]
     asyk = "async " if s["asy"] else ""
     tg = TGEN if "g" in s["word"] else ""
     if s["borrowed"]:
-        sig = "pub %sfn f<'d%s>(deps: &'d %s%s) -> &'d str" % (asyk, ", " + tg if tg else "", ty, "".join(", " + p for p in params))
+        sig = "pub %sfn f<'d%s%s>(deps: &'d %s%s) -> &'d str" % (asyk, ", " + flt if flt else "", ", " + tg if tg else "", ty, "".join(", " + p for p in params))
         ret_ty = "&str"
         result = name_expr
     else:
-        sig = "pub %sfn f%s(deps: &%s%s) -> String" % (asyk, "<%s>" % tg if tg else "", ty, "".join(", " + p for p in params))
+        sig = "pub %sfn f%s(deps: &%s%s) -> String" % (asyk, "<%s>" % ", ".join(x for x in (flt, tg) if x) if (tg or flt) else "", ty, "".join(", " + p for p in params))
         ret_ty = "String"
         result = gen.fmt_call("R", shows)
     ms = s.get("maybe_send")
@@ -87,11 +92,11 @@ def render(s):
     # (type parameters of the fn are lifted to the generated trait: `Tr<T>`)
     TRI = "impl<%s> Tr<T>" % tg if tg else "impl Tr"
     TRA = "Tr<i64>" if tg else "Tr"
-    L.append("    pub struct App { pub c: %s, pub other: u8 }" % ty)
+    L.append("    pub struct App { pub c: %s, pub other: u8 }" % sty)
     L.append("    %s for App { %s { Tr::f(&self.c%s) } }" % (TRI, hsig, "".join(", " + a for a in shows)))
-    L.append("    pub struct BareApp { pub c: %s, pub m: rt::BareMarker }" % ty)
+    L.append("    pub struct BareApp { pub c: %s, pub m: rt::BareMarker }" % sty)
     L.append("    %s for BareApp { %s { Tr::f(&self.c%s) } }" % (TRI, hsig, "".join(", " + a for a in shows)))
-    L.append("    pub struct NoTrait; pub struct NotSyncApp { pub c: %s, pub m: rt::NotSyncMarker }" % ty)
+    L.append("    pub struct NoTrait; pub struct NotSyncApp { pub c: %s, pub m: rt::NotSyncMarker }" % sty)
     if not s["asy"]:
         L.append("    %s for NotSyncApp { %s { Tr::f(&self.c%s) } }" % (TRI, hsig, "".join(", " + a for a in shows)))
 
@@ -104,11 +109,11 @@ def render(s):
     L.append('        { let r = %s; rt::out("on_c", format!("{}##{}##{:x}", rt::take(), r, rt::addr(&c))); }' % wrap("Tr::f(&c%s)" % a))
     L.append("        let ic = ::entrait::Impl::new(%s);" % ctor)
     L.append('        { let r = %s; rt::out("impl_c", format!("{}##{}##{:x}", rt::take(), r, rt::addr(&*ic))); }'
-             % wrap("<::entrait::Impl<%s> as %s>::f(&ic%s)" % (ty, TRA, a)))
+             % wrap("<::entrait::Impl<%s> as %s>::f(&ic%s)" % (sty, TRA, a)))
     L.append("        let iapp = ::entrait::Impl::new(App { c: %s, other: 0 });" % ctor)
     L.append('        { let r = %s; rt::out("impl_app", format!("{}##{}##{:x}", rt::take(), r, rt::addr(&iapp.c))); }'
              % wrap("<::entrait::Impl<App> as %s>::f(&iapp%s)" % (TRA, a)))
-    probes = ["%s" % ty, "::entrait::Impl<%s>" % ty, "App", "::entrait::Impl<App>", "::entrait::Impl<BareApp>", "NoTrait", "::entrait::Impl<NoTrait>",
+    probes = ["%s" % sty, "::entrait::Impl<%s>" % sty, "App", "::entrait::Impl<App>", "::entrait::Impl<BareApp>", "NoTrait", "::entrait::Impl<NoTrait>",
               "::entrait::Impl<NotSyncApp>", "::entrait::Impl<::entrait::Impl<App>>"]
     L.append('        rt::out("avail", [%s].iter().map(|b| if *b { "1" } else { "0" }).collect::<String>());'
              % ", ".join("implements!(%s: %s)" % (t, TRA) for t in probes))
